@@ -123,3 +123,25 @@ PROPS["C19"] = {
     "assumptions": ["the drop counters keep no addresses, so they cannot hide a leak from memcheck or Miri", "'usable' is read as: key(), value() and degree readable through the surviving handle (iterating edges whose peers the program itself dropped is outside the properties' live-node premise)"],
     "timeout": {"quick": 300, "thorough": 2400},
 }
+
+PROPS["C20"] = {
+    "id": "C20", "cmd": "mutate", "level": "exploration",
+    "rule": "cases = (multigraph on 2..3 nodes within the edge bound) x loop kind (iter_out/iter, iter_in, `for e in &node`, and bfs/dfs/pfs-min/pfs-max/preorder/postorder x for_each/filter x plain/transposed x with/without target x search_cycle: 3+39 kinds directed, 2+21 undirected) x root x trigger step x script; scripts = every single operation from {connect, try_connect, disconnect, isolate} x operands {iterated/source node, yielded peer, root, third node}^2, queries, 12 kinds of nested search, container insert/remove/get (113 scripts), fired once or at every following step; plus seeded random cases with 1-3 op scripts on up to 6 nodes. The harness applies every mutation it performs to a model, so each yielded edge is tested for membership at the moment of the yield; also: no panic / re-entrant lock (hook), logical step bound after the last edge-adding op, earlier handles unchanged, final state == model and passes the C01/C02 walkers. distinct = distinct cases in which the loop reached the trigger step (script actually ran inside the loop).",
+    "shards": {"quick": 16, "thorough": 16},
+    "args": {"quick": ["--max-n", "3", "--max-e", "1", "--random", "40000"], "thorough": ["--max-n", "3", "--max-e", "2", "--random", "2000000"]},
+    "exhaustive": {"quick": True, "thorough": True},
+    "require": {"any": ["enumerations_completed", "cases_where_script_fired", "random_cases", "yields_observed"]},
+    "assumptions": ["the harness keeps a strong handle to every node (container remove never frees a connected node)", "mutations performed inside loops obey the C03 contract (their return values drive the model)"],
+    "timeout": {"quick": 300, "thorough": 3000},
+}
+
+PROPS["C15"] = {
+    "id": "C15", "cmd": "dropin", "level": "exploration",
+    "rule": "programs over the API common to both flavours (connect/try_connect/disconnect/isolate with 7 handle provenances, degree/predicate/lookup queries, the three edge iterators, every search/ordering configuration with for_each logs and reject-set filters, container insert/remove/get/index/len/to_vec/iter/roots/leaves/orphans, scc, JSON/CBOR text, DOT, edge and node comparison operators) are generated from the seed (50..300 calls, 2..6 nodes) and executed on digraph vs sync_digraph and ungraph vs sync_ungraph; transcripts (one line per call, keys and values only; hash-order dependent output canonicalised; scc compared only when it equals the model partition) must be equal. In addition every (abstract state, op) pair of the C03 enumeration for 3 nodes is run side by side with all iterators and queries afterwards. distinct = distinct programs.",
+    "shards": {"quick": 16, "thorough": 16},
+    "args": {"quick": ["--programs", "4000", "--max-edges", "2"], "thorough": ["--programs", "200000", "--max-edges", "3"]},
+    "exhaustive": {"quick": False, "thorough": False},
+    "require": {"any": ["enumerations_completed", "programs", "calls.search", "calls.serde", "calls.scc", "calls.dot", "calls.compare", "calls.container", "enumerated_state_op_pairs"]},
+    "assumptions": ["sizeof() and APIs that exist in one flavour only (with_capacity, Index<&K>, to_dot_with_attr/sizeof of ungraph) are not part of the common API", "compile-time differences between the flavours (trait bounds) are outside what executions can show"],
+    "timeout": {"quick": 300, "thorough": 3000},
+}
